@@ -117,7 +117,8 @@ namespace RecInt
     }
     template <size_t K, typename T>
     inline __RECINT_IS_SIGNED(T, rint<K>&) operator+=(rint<K>& a, const T& b) {
-        add(a, b);
+        if (b < 0) sub(a, -b);
+        else add(a, b);
         return a;
     }
 
